@@ -109,6 +109,24 @@ func checkTree(k *run.K, t model.Tree, scan bool) {
 			}
 		}
 		lastMixed = w.Buf
+		// the decoded value must not alias the caller's buffer: decode from a sub-slice at each alignment of a
+		// larger buffer, scribble over it afterwards and look at the value again
+		if derr == nil {
+			off := (k.Index + int(m%8)) % 8
+			big := make([]byte, off+len(w.Buf)+3)
+			in := big[off : off+len(w.Buf)]
+			copy(in, w.Buf)
+			var ag geom.Geometry
+			var aerr error
+			if !k.Lib("nopanic", func() { ag, aerr = geom.UnmarshalWKB(in, geom.NoValidate{}) }) && aerr == nil {
+				before := treeOf(ag)
+				for i := range big {
+					big[i] = 0xAA
+				}
+				after := treeOf(ag)
+				k.Check("input-unchanged", model.Equal(before, after) && model.Equal(after, treeOf(dg)), "the decoded geometry changed when the caller overwrote the buffer it had been decoded from (offset %d, mask %b): %s", off, m, model.Diff(after, before))
+			}
+		}
 		ok := derr == nil
 		if ok {
 			dt, iss := model.FromGeom(dg)
@@ -254,6 +272,21 @@ func scanChecks(k *run.K, g geom.Geometry, t model.Tree, lib, lastMixed []byte) 
 			if tg.typ == t.Type {
 				k.Check("input-unchanged", err == nil && model.Equal(treeOf(out), t), "%v.Scan of a buffer that other adapters had seen before: err=%v", tg.typ, err)
 			}
+		}
+	}
+	// a scanned value does not alias the driver's row buffer
+	{
+		off := k.Index % 8
+		big := make([]byte, off+len(lib)+1)
+		in := big[off : off+len(lib)]
+		copy(in, lib)
+		var x geom.Geometry
+		var e error
+		if !k.Lib("nopanic", func() { e = x.Scan(in) }) && e == nil {
+			for i := range big {
+				big[i] = 0x55
+			}
+			k.Check("input-unchanged", model.Equal(treeOf(x), t), "Geometry.Scan: the scanned value changed when the buffer was overwritten (offset %d)", off)
 		}
 	}
 	// receivers that already hold a value are overwritten completely
